@@ -345,6 +345,83 @@ fn readonly_session(st: &mut State, mode: &str) -> Sx {
     Sx::ok(Sx::L(vec![Sx::I(w as i128), Sx::boolean(equal)]))
 }
 
+/// C15: run a script on a fresh package whose medium fails write call number `k` (once, or from then on), close it in
+/// the given mode, then disarm the fault and reopen whatever bytes reached the medium.
+/// -> ((result per call incl. create) close-result faults-hit write-calls snapshot-after-reopen)
+fn fault_run(k: i128, persistent: bool, mode: &str, cmds: &[Sx]) -> Sx {
+    use std::panic::{catch_unwind, AssertUnwindSafe};
+    let medium = Medium::new(Vec::new());
+    let mut st = State::new();
+    st.medium = Some(medium.clone());
+    if k >= 0 {
+        medium.inner.borrow_mut().fail_write_at = Some((k as u64, persistent));
+    }
+    let mut results = Vec::new();
+    match catch_unwind(AssertUnwindSafe(|| Package::create(PackageType::Installer, medium.clone()))) {
+        Ok(Ok(p)) => {
+            st.pkg = Some(p);
+            results.push(Sx::sym("ok"));
+        }
+        Ok(Err(_)) => results.push(Sx::sym("err")),
+        Err(_) => results.push(Sx::sym("panic")),
+    }
+    if st.pkg.is_some() {
+        for c in cmds {
+            let items = c.as_list();
+            let name = items[0].as_sym().to_string();
+            let r = catch_unwind(AssertUnwindSafe(|| pkg_cmd(&mut st, &name, &items[1..])));
+            results.push(match r {
+                Ok(Some(o)) => {
+                    let t = format!("{}", o);
+                    if t == "err" || t.ends_with("_err") {
+                        Sx::sym("err")
+                    } else {
+                        Sx::sym("ok")
+                    }
+                }
+                Ok(None) => Sx::sym("badcmd"),
+                Err(_) => Sx::sym("panic"),
+            });
+            if st.pkg.is_none() {
+                break;
+            }
+        }
+    }
+    let close = match st.pkg.take() {
+        Some(mut p) => match mode {
+            "flush" => match catch_unwind(AssertUnwindSafe(|| p.flush())) {
+                Ok(Ok(())) => {
+                    std::mem::forget(p);
+                    Sx::sym("ok")
+                }
+                Ok(Err(_)) => {
+                    std::mem::forget(p);
+                    Sx::sym("err")
+                }
+                Err(_) => Sx::sym("panic"),
+            },
+            _ => match catch_unwind(AssertUnwindSafe(|| p.into_inner())) {
+                Ok(Ok(_)) => Sx::sym("ok"),
+                Ok(Err(_)) => Sx::sym("err"),
+                Err(_) => Sx::sym("panic"),
+            },
+        },
+        None => Sx::sym("none"),
+    };
+    let (hit, writes) = {
+        let mut g = medium.inner.borrow_mut();
+        g.fail_write_at = None;
+        (g.faults_hit, g.writes)
+    };
+    let mut st2 = State::new();
+    let snap = match catch_unwind(AssertUnwindSafe(|| open_bytes(&mut st2, medium.snapshot()))) {
+        Ok(o) if format!("{}", o) == "(ok ())" => pkg_cmd(&mut st2, "snapshot", &[]).unwrap_or(Sx::sym("nosnap")),
+        Ok(_) => Sx::sym("unopenable"),
+        Err(_) => Sx::sym("open_panicked"),
+    };
+    Sx::L(vec![Sx::L(results), close, Sx::I(hit as i128), Sx::I(writes as i128), snap])
+}
+
 /// C11: save the package, add the two digital-signature streams with the cfb crate only, open the result
 fn add_signature(st: &mut State) -> Sx {
     let p = st.pkg.take().expect("harness: no package");
@@ -366,6 +443,7 @@ fn add_signature(st: &mut State) -> Sx {
 
 pub fn pkg_cmd(st: &mut State, name: &str, args: &[Sx]) -> Option<Sx> {
     match (name, args) {
+        ("x_fault_run", [k, persistent, mode, cmds]) => Some(fault_run(k.as_int(), persistent.as_bool(), mode.as_sym(), cmds.as_list())),
         ("add_signature", []) => {
             if st.pkg.is_none() {
                 return Some(Sx::sym("nopkg"));
